@@ -6,13 +6,128 @@ from . import bcommon as B
 
 CATEGORY = "other"
 EXPLANATION = B.MIXED + (
-    "P: trace_out_matrix pattern used for the occupation estimate; definedness. B: resize at the three entry points x levels x state classes "
+    "P: the own-state branch of Fock.resize is proved for every dimension, request and state (symbolic execution of the real AST, uninterpreted finite "
+    "sequences, num_quanta_* axiomatised as 'highest non-zero index', z3): success => requested dimension, common prefix kept, every dropped entry was zero, "
+    "every added entry is zero; failure => state and dimension untouched; trace_out_matrix pattern used for the occupation estimate; definedness. B: resize at the three entry points x levels x state classes "
     "(support touching the top level, empty top level, mixed): success => requested dimension, zero padding only, no population removed; failure => "
     "state and dimension untouched; reported dimension == Fock axis length. Automatic dimension: result compared with the ideal (cut-off + 40) result, "
     "exactly for ladder / phase / beam-splitter operations, up to the documented threshold for displacement / squeezing / expressions (known finding).")
 
 
+def resize_kernel(rep):
+    """Level P: own-state branch of Fock.resize for every dimension, request and state (pyvc resize executor + z3);
+    on any undischarged obligation the small-scope search on the REAL method looks for a concrete failing input."""
+    import z3
+    from vf.common import Obligation
+    from vf.pyvc import engine, resizeexec as R
+    from vf.pyvc.listexec import Outside
+    rel, q = "photon_weave/state/fock.py", "Fock.resize"
+    fq = f"{rel}::{q}"
+    try:
+        fn, src, _ = engine.load_function(rel, q)
+    except Exception as ex:
+        rep.undecided.append(f"{fq}: {ex}")
+        return
+    rep.add_function(fq, rel, src, "P (proved by pyvc+z3), own-state branch")
+    obs = []
+    try:
+        ex = R.ResizeExec(fn)
+        vcs = ex.run()
+        can = z3.Solver(); can.set("timeout", 5000)
+        for h in ex.pre():
+            can.add(h)
+        can.add(ex.idxkind == 0, ex.level == R.VECTOR, ex.d0 == 4, ex.n == 2)
+        obs.append(Obligation(f"{fq}::cover:requires", fq, "cover", "z3", "discharged" if can.check() == z3.sat else "failed", detail="precondition satisfiable with a shrink request"))
+        obs.append(Obligation(f"{fq}::cover:paths", fq, "cover", "pyvc", "discharged" if ex.paths >= 10 and len(vcs) >= 20 else "failed",
+                              detail=f"{ex.paths} return paths, {len(vcs)} VCs, delegations {sorted(set(ex.delegations))}"))
+        want = {"self.envelope.resize_fock(new_dimensions)", "self.composite_envelope.resize_fock(new_dimensions, self)"}
+        obs.append(Obligation(f"{fq}::ensures:stored-elsewhere-delegates-to-the-container", fq, "ensures", "pyvc",
+                              "discharged" if set(ex.delegations) == want else "failed", detail=str(sorted(set(ex.delegations)))))
+        for vc in vcs:
+            st, dt, model, reason = engine.solve(vc.hyps, vc.goal, 15000)
+            obs.append(Obligation(f"{fq}::{vc.name}", fq, vc.kind, "z3", st, dt, reason, model))
+    except Outside as o:
+        obs.append(Obligation(f"{fq}::subset", fq, "subset", "pyvc", "unknown", detail=str(o)))
+    for o in obs:
+        rep.add_ob(o)
+    rep.obligation_samples.append({"function": fq, "obligations": [o.oid.split("::")[-1] for o in obs][:8]})
+    bad = [o for o in obs if o.status != "discharged"]
+    if not bad:
+        return
+    wit = resize_small_scope()
+    if wit:
+        rep.violation(f"{fq} violates its contract: {wit['why']} on {wit['input']}", key=f"P:{fq}:{wit['why'][:40]}",
+                      replay={"kind": "resize", "input": wit["input"], "why": wit["why"], "failed_obligations": [o.oid for o in bad],
+                              "solver_output": [{"id": o.oid, "status": o.status, "model": o.model} for o in bad]})
+    elif any(o.status == "failed" for o in bad):
+        rep.violation(f"{fq}: obligation(s) refuted: " + ", ".join(o.oid.split('::')[-1] for o in bad if o.status == "failed"),
+                      key=f"P:{fq}:refuted", replay={"kind": "obligation", "function": fq, "failed_obligations": [o.oid for o in bad],
+                                                     "solver_output": [{"id": o.oid, "status": o.status, "model": o.model} for o in bad]}, no_input=True)
+    else:
+        rep.undecided.append(f"{fq}: " + "; ".join(f"{o.oid.split('::')[-1]}={o.status} {o.detail[:60]}" for o in bad)[:400])
+
+
+def resize_small_scope():
+    """all dimensions d <= 5, requests n in [-1, 7], levels L/V/M, highest occupied level q < d (vector: e_q + e_0 mix; matrix: diag)."""
+    import numpy as np
+    common.use_repo()
+    import jax.numpy as jnp
+    from photon_weave.state.expansion_levels import ExpansionLevel
+    from photon_weave.state.fock import Fock
+    for d in range(1, 6):
+        for q in range(d):
+            for n in range(-1, 8):
+                for lv in ("L", "V", "M"):
+                    f = Fock()
+                    f.dimensions = d
+                    if lv == "L":
+                        f.state = q
+                        before = q
+                    elif lv == "V":
+                        v = np.zeros((d, 1), dtype=complex)
+                        v[q, 0] = 0.6
+                        v[0, 0] += 0.8 if q else 0.4
+                        v = v / np.linalg.norm(v)
+                        f.state, f.expansion_level, before = jnp.array(v), ExpansionLevel.Vector, v
+                    else:
+                        p = np.zeros(d)
+                        p[q] = 0.5
+                        p[0] += 0.5
+                        m = np.diag(p).astype(complex)
+                        if q:
+                            m[0, q] = m[q, 0] = 0.25
+                        f.state, f.expansion_level, before = jnp.array(m), ExpansionLevel.Matrix, m
+                    inp = {"dimension": d, "highest_occupied": q, "new_dimensions": n, "level": lv}
+                    try:
+                        r = f.resize(n)
+                    except Exception as ex:
+                        return {"input": inp, "why": f"raised {type(ex).__name__}: {ex}"}
+                    after = f.state
+                    if r is True:
+                        if f.dimensions != n:
+                            return {"input": inp, "why": f"success but dimensions == {f.dimensions}"}
+                        if lv == "L":
+                            if not (0 <= q < n):
+                                return {"input": inp, "why": "success but the label is outside the new space"}
+                            continue
+                        a = np.array(after)
+                        if a.shape[0] != n:
+                            return {"input": inp, "why": f"success but the array has {a.shape[0]} rows"}
+                        mm = min(d, n)
+                        same = np.allclose(a[:mm, :mm] if lv == "M" else a[:mm], before[:mm, :mm] if lv == "M" else before[:mm])
+                        lost = (np.abs(before[n:]).max() if lv == "V" and n < d else max(np.abs(before[n:, :]).max(), np.abs(before[:, n:]).max()) if lv == "M" and n < d else 0)
+                        if not same or lost > 0:
+                            return {"input": inp, "why": "success but population was removed / the kept part changed"}
+                    elif r is False:
+                        if f.dimensions != d or (lv != "L" and not np.array_equal(np.array(after), before)) or (lv == "L" and after != before):
+                            return {"input": inp, "why": "failure reported but state or dimension changed"}
+                    else:
+                        return {"input": inp, "why": f"returned {r!r}"}
+    return None
+
+
 def run(rep, tier):
+    resize_kernel(rep)
     kernels.oracle_self_check(rep)
     kernels.run_generators(rep, ["trace_out_matrix"])
     kernels.run_scope(rep, ["photon_weave/state/fock.py", "photon_weave/operation/fock_operation.py",
